@@ -100,6 +100,53 @@ def _no_clearing(c, fnp, f, effs):
     return n
 
 
+GROW = re.compile(r"(::extend|::insert|::entry|::or_insert\w*|::get_or_insert\w*|::push|::append|::sort\w*|::dedup\w*|::deref_mut|::iter_mut|::as_mut|::merge|::next|::or_default|::and_modify|::reserve)$")
+SHRINK = re.compile(r"(::take|::take_if|::replace|::clear|::truncate|::remove|::pop|::retain|::drain|::swap|::split_off|::swap_remove)$")
+
+
+def _mutation_kinds(c, fnp, f, effs):
+    """every call that receives `&mut self.<field>` inside a merge either can only add (extend, insert, entry, ...) or, when it
+    can remove data of self (take, replace, clear, ...), is followed on every path to the return by an assignment to that field —
+    otherwise a value present in `self` is absent from the result."""
+    b = f.body
+    assigns = {}
+    for e in effs:
+        if e["kind"] == "assign":
+            tp = _target_path(e["target"])
+            if tp is not None and any(x[0] == "arg" for x in walk_term(e["value"])):
+                assigns.setdefault(tuple(tp), set()).add(e["bb"])
+    rets = {bi for bi in b.reachable() if b.term(bi)["k"] == "return"}
+    for e in effs:
+        if e["kind"] != "mutarg":
+            continue
+        tp = _target_path(e["target"])
+        if tp is None:
+            continue
+        name = e["callee"] or ""
+        if SHRINK.search(name):
+            stop = set()
+            for k, bbs in assigns.items():
+                if list(k[:len(tp)]) == tp or tp[:len(k)] == list(k):
+                    stop |= bbs
+            seen, st = set(), [x for x in b.succ(e["bb"]) if not b.blocks[x]["cleanup"]]
+            leak = False
+            while st:
+                x = st.pop()
+                if x in seen or x in stop:
+                    continue
+                seen.add(x)
+                if x in rets:
+                    leak = True
+                    break
+                st.extend(y for y in b.succ(x) if not b.blocks[y]["cleanup"])
+            c.inst("R2.mutation-kind", "%s(self.%s)" % (name.split("::")[-1], ".".join(tp)), not leak,
+                   "%s empties or shrinks self.%s and some path to the return does not assign the field again: a value present in self is lost"
+                   % (name, ".".join(tp)), f.where(e.get("sp")), fnp)
+        else:
+            c.inst("R2.mutation-kind", "%s(self.%s)" % (name.split("::")[-1], ".".join(tp)), True,
+                   "adds to / reorders self.%s (%s)" % (".".join(tp), "growing operation" if GROW.search(name) else "not a removing operation"), f.where(e.get("sp")), fnp)
+
+
 def run(c, prog, ctx):
     c.explanation = (
         "Static decision of the structural clauses of C14 on the MIR of the four merge functions: (R1) every field of "
@@ -118,10 +165,12 @@ def run(c, prog, ctx):
         if owner.endswith("Global"):
             _coverage(c, prog, "pset::map::global::TxData", fnp, TXDATA_EXEMPT, prefix=("tx_data",), effs=effs, f=f)
         _no_clearing(c, fnp, f, effs)
+        _mutation_kinds(c, fnp, f, effs)
     _id_gate(c, prog)
     _xpub_table(c, prog)
     _global_combination(c, prog)
     c.floor("R1.other-consumed", 70, "Input 48-2, Output 20-3, Global 6, TxData 2 counted on the pinned tree")
+    c.floor("R2.mutation-kind", 18, "15 map extends, scalars extend/sort/dedup, xpub entry/insert")
     c.floor("R2.no-clearing", 40, "one per merge! expansion and direct assignment")
 
 
